@@ -308,25 +308,30 @@ fn next_bytes<'s>(
     let (_, next) = bytes.split_at(offset.unwrap_or(bytes.len()));
     *bytes = next;
 
-    let offset = bytes.iter().copied().position(|b| {
-        if *state == State::Utf8 {
-            if utf8parser.add(b) {
-                *state = State::Ground;
-            }
-            false
-        } else {
-            let (next_state, action) = state_change(State::Ground, b);
-            if next_state != State::Anywhere {
-                *state = next_state;
-            }
+    let offset = if *state == State::Ground || *state == State::Utf8 {
+        bytes.iter().copied().position(|b| {
             if *state == State::Utf8 {
-                utf8parser.add(b);
+                if utf8parser.add(b) {
+                    *state = State::Ground;
+                }
                 false
             } else {
-                !is_printable_bytes(action, b)
+                let (next_state, action) = state_change(State::Ground, b);
+                if next_state != State::Anywhere {
+                    *state = next_state;
+                }
+                if *state == State::Utf8 {
+                    utf8parser.add(b);
+                    false
+                } else {
+                    !is_printable_bytes(action, b)
+                }
             }
-        }
-    });
+        })
+    } else {
+        // Either out of data or whitespace was executed in the middle of an escape sequence
+        Some(bytes.len().min(1))
+    };
     let (printable, next) = bytes.split_at(offset.unwrap_or(bytes.len()));
     *bytes = next;
     if printable.is_empty() {
